@@ -391,7 +391,7 @@ def warm(sc):
         pass
 
 
-def apply_edits(sc, edits):
+def apply_edits(sc, edits, check=False):
     from sismic.exceptions import StatechartError
     for e in edits:
         try:
@@ -418,6 +418,34 @@ def apply_edits(sc, edits):
                 sc.rotate_transition(t, **kw)
         except StatechartError:
             pass
+        except Exception as x:      # noqa
+            # an editing operation raises StatechartError or nothing: anything else is remembered on the statechart
+            # (and reported by the oracle of whatever property runs it)
+            if not getattr(sc, '_vp_edit_error', None):
+                sc._vp_edit_error = '%s raised %s: %s' % (e, type(x).__name__, str(x)[:120])
+    if check and not getattr(sc, '_vp_edit_error', None):
+        # (a whole history applied again, as when a case is replayed)
+        bad = inconsistent(sc)
+        if bad:
+            sc._vp_edit_error = 'after %s: %s' % (edits, bad)
+
+
+def inconsistent(sc):
+    """None, or what is wrong between parent_for and children_for"""
+    try:
+        for x in sc.states:
+            p = sc.parent_for(x)
+            if p is None:
+                if x != sc.root:
+                    return '%r has no parent and is not the root' % x
+            elif x not in sc.children_for(p):
+                return 'parent_for(%r) is %r but children_for(%r) is %r' % (x, p, p, sc.children_for(p))
+            for c in sc.children_for(x):
+                if sc.parent_for(c) != x:
+                    return 'children_for(%r) holds %r whose parent_for is %r' % (x, c, sc.parent_for(c))
+    except Exception as e:      # noqa
+        return 'a structural query raised %s: %s' % (type(e).__name__, str(e)[:100])
+    return None
 
 
 def plan_edits(r, sc, need_wf=True):
@@ -475,8 +503,9 @@ def plan_edits(r, sc, need_wf=True):
             tg = '<keep>' if r.random() < 0.6 else r.choice([None] + [n for n in sc.states if n != sc.root])
             do(['rotate', i, src, tg])
         elif c < 0.87:
-            # (the root state can be renamed like any other)
-            a = r.choice(names + [sc.root])
+            # (the root state can be renamed like any other; by preference a state with something below it)
+            deep = [n for n in names if sc.children_for(n)]
+            a = r.choice(deep) if deep and r.random() < 0.6 else r.choice(names + [sc.root])
             # a new name that sorts elsewhere than the old one
             new = r.choice(['a', 'm', 'z']) + a + r.choice(['', 'x'])
             if new in sc.states:
@@ -488,6 +517,12 @@ def plan_edits(r, sc, need_wf=True):
                 do(['remove', r.choice(leaves)])
     if not edits:
         return None
+    # whatever was edited, parents and children still agree (asked through the public queries)
+    bad = inconsistent(sc)
+    if bad:
+        if not getattr(sc, '_vp_edit_error', None):
+            sc._vp_edit_error = 'after %s: %s' % (edits, bad)
+        return edits
     # what the edits reset, a client sets again
     for n in list(sc.states):
         st = sc.state_for(n)
